@@ -88,6 +88,12 @@ CHECKS = {
    text="Generated result lists, Get responses, client errors and wanted items (70% absent by a one-field perturbation, all five entry kinds, every option combination) are given to each helper on a capturing testing.TB; a field-by-field specification written without cmp decides presence and both directions must agree; HasResultsCache is additionally compared with HasResult (cache-pass implies plain-pass, equality when lookup keys are unique) and documented test-author errors must be fatal.",
    note="Trusted: the specification of presence transcribed from the helper documentation; one documented-ambiguous region (AllowUnimplemented vs details of other codes) is not asserted.",
    design="DESIGN.md §4 C17"),
+ "C18": dict(
+   technique="property-based testing of generated builder programs against an independent interpreter, observed through a recording stub GRIBIClient",
+   level="exploration",
+   text="Programs of constructor/With*/Add* calls over the five entry builders and both encap-header builders, interleaved with AddEntry/ReplaceEntry/DeleteEntry, UpdateElectionID, StartSending and OpProto/EntryProto probes, run on a fluent client (elected-primary or all-primary) wired to a recording stub; builders keep being mutated after they were queued. An independent interpreter computes the expected protos, ids 1,2,3.., operation types and election stamps; probes are compared immediately, the request pointers received by the stub only at the very end so that aliasing of queued messages shows.",
+   note="Trusted: the interpreter's reading of each setter (last call wins, Add* appends); header builders are not modified after AddEncapHeader; the stub stands in for gRPC (no serialisation).",
+   design="DESIGN.md §4 C18"),
 }
 NOT_YET = {}
 
